@@ -561,7 +561,8 @@ func (m *machine) userChangesMode(viaCommands bool) {
 func (m *machine) userCleans() {
 	t := m.t
 	os.MkdirAll(m.upl, 0777)
-	foreign := []string{"notes.txt", "x.v1.count.bak", "y.jsonx", "z.v2.count", "json", ".json.swp", "v1.count", "report.JSON", "a.count", "upload.token"}
+	foreign := []string{"notes.txt", "x.v1.count.bak", "y.jsonx", "z.v2.count", "json", ".json.swp", "v1.count", "report.JSON", "a.count", "upload.token",
+		"2024-01-08.json.lock", "stale.lock", "2024-01-08.json.tmp7", "local.2024-01-08.json.tmp3", "weekends.tmp1", "x.v1.count.tmp"}
 	exact := []string{"foreign.v1.count", "foreign.json", "local.foreign.json", ".v1.count", ".json"}
 	for _, dir := range []string{m.loc, m.upl} {
 		for _, n := range foreign {
